@@ -115,13 +115,13 @@ theorem seq_requests_fail (s : W) (h : s.writeErr.isSome) :
     (∀ t data dnp fullp dn full, (writeMessage s t data dnp fullp dn full).1.isSome) ∧
     (∀ enc dnp fullp dn full, (writeJSON s enc dnp fullp dn full).1.isSome) ∧
     (∀ t data d, (writeControl s t data d).1.isSome) ∧
-    (∀ t img, (writePreparedImage s t img).1.isSome) ∧
+    (∀ t img dnp fullp, (writePreparedImage s t img dnp fullp).1.isSome) ∧
     (∀ hd dn full, (hClose s hd dn full).1.isSome) :=
   ⟨fun t dnp fullp => (nextWriter_of_err s t dnp fullp h).1,
    fun t data dnp fullp dn full => (writeMessage_of_err s t data dnp fullp dn full h).1,
    fun enc dnp fullp dn full => (writeJSON_of_err s enc dnp fullp dn full h).1,
    fun t data d => (writeControl_of_err s t data d h).1,
-   fun t img => (writePreparedImage_of_err s t img h).1,
+   fun t img dnp fullp => (writePreparedImage_of_err s t img dnp fullp h).1,
    fun hd dn full => (hClose_of_err s hd dn full h).1⟩
 
 /-- non-vacuity: a server that sends a close via WriteControl ends up with the sticky error set
